@@ -4,14 +4,15 @@ import "strings"
 
 // HarnessSpec says how one harness is run for a property.
 type HarnessSpec struct {
-	Name       string
-	Covers     []string // labels that must be reached (vacuity guard)
-	Terminates bool     // a path that exhausts the step budget is a violation (termination obligation)
-	Concurrent bool     // the harness runs goroutines: natively the schedule is Go's, so witness replays are compared by outcome kind only and violations are replayed many times
-	MaxPathsQ  int      // path budgets (0 = default)
-	MaxPathsT  int
-	StepsQ     int
-	StepsT     int
+	Name        string
+	Covers      []string // labels that must be reached (vacuity guard)
+	Terminates  bool     // a path that exhausts the step budget is a violation (termination obligation)
+	MustViolate string   // engine self-validation: the harness MUST end in a violation whose message contains this text (it is not a property violation and is not replayed)
+	Concurrent  bool     // the harness runs goroutines: natively the schedule is Go's, so witness replays are compared by outcome kind only and violations are replayed many times
+	MaxPathsQ   int      // path budgets (0 = default)
+	MaxPathsT   int
+	StepsQ      int
+	StepsT      int
 }
 
 // PropSpec describes the check of one property.
@@ -493,7 +494,15 @@ func init() {
 			"quick":    "NewServer (real; net/http.ServeMux pattern registration and routing, http.StripPrefix, the h2c wrapper and http2.ConfigureServer interpreted from source) with 4 mount configurations (default, MuxHandleOption(/api/), MuxHandleOption(/api, /v2/x/), MuxHandleOption(/)) plus HTTPHandlerOption(/static/); one request per entry kind - transcoding with a symbolic 1..2 byte path segment, failing handler (google.rpc.Status and Twirp error rendering), unary gRPC (ProtoMajor 2), unary gRPC-web, an unrouted path - sent as prefix+path to the server's handler and as path to an identically built bare mux: status, every response header, body, handler invocations and captured path variables must be equal; the same request under /other is answered 404 without reaching the mux; GET /static/file reaches the extra handler",
 			"thorough": "as quick",
 		},
-		Assume: append([]string{"the request enters at http.Server.Handler.ServeHTTP with the request object net/http would build (the HTTP/1.1 and HTTP/2 wire layers, TLS and h2c upgrade are not exercised)", "runtime.Caller answers 'unknown' (ServeMux uses it only to word registration conflicts)"}, driverAssume...),
+		Assume:  append([]string{"the request enters at http.Server.Handler.ServeHTTP with the request object net/http would build (the HTTP/1.1 and HTTP/2 wire layers, TLS and h2c upgrade are not exercised)", "runtime.Caller answers 'unknown' (ServeMux uses it only to word registration conflicts)"}, driverAssume...),
 		Outside: []string{"unclean paths ('.', '..', '//' segments): net/http.ServeMux answers them with a 301 before any handler runs, so NewServer is not transparent for them under ANY pattern including the default - unspecified, not asserted", "the request to exactly the prefix without trailing slash (ServeMux redirects it)", "host-specific and method-specific ServeMux patterns", "streaming calls, WebSocket upgrade through the mounted server", "the HTTP/2 and TLS layers"},
 	})
+
+	race := "happens-before race detection on the explored schedules (vector clocks per simulated goroutine; edges from mutex, RWMutex, WaitGroup, Once, sync/atomic, atomic.Value, Pool and channel operations and the go statement; loads, stores and map accesses executed by SSA instructions are checked; a reported race is confirmed natively under `go test -race`)"
+	ext("C12", race,
+		HarnessSpec{Name: "VerifH_race_selftest_clean", Concurrent: true, Covers: []string{"clean"}},
+		HarnessSpec{Name: "VerifH_race_selftest_racy", Concurrent: true, MustViolate: "data race:"})
+	ext("C13", race)
+	replaceOutside("C12", "schedules with more preemptions than the bound", "schedules with more preemptions than the bound, interleavings of unsynchronised memory accesses between two scheduling points (atomicity violations there are invisible; data RACES on them are reported by the happens-before detector), accesses made inside engine intrinsics (copy, append, library models) are not race-checked")
+	replaceOutside("C13", "data-race freedom as such (no happens-before tracking)", "races on memory touched only inside engine intrinsics (copy, append, library models), more than two concurrent requests, schedules beyond the context bound, interleavings of unsynchronised memory accesses between two scheduling points, the proxy's stream pumps under C13 (exercised, with race detection, under C10); pooled-buffer aliasing and pooled gzip reader / writer reuse are decided across consecutive AND concurrent requests")
 }
